@@ -82,6 +82,7 @@ def jobs(tier):
         {"kind": "broker", "K": 5 if q else 6, "noreply": False, "reentrant": True},
         {"kind": "broker", "K": 5 if q else 6, "noreply": True},
         {"kind": "broker", "K": 5 if q else 6, "noreply": False, "eb_cancel": True},
+        {"kind": "broker", "K": 5 if q else 6, "noreply": True, "reentrant": True},
         {"kind": "bootstrap", "K": 5 if q else 6},
     ]
 
@@ -155,6 +156,7 @@ def _broker(job):
                         ctx.log("close-from-callback", r.cid)
                         st["closed"] = True
                         st["reentrant_close"] = True
+                        st["rc_event"] = True
                         unfired = [x for x in reqs if not x.res]
                         st["close_d"] = []
                         bc.close().addBoth(st["close_d"].append)
@@ -175,6 +177,8 @@ def _broker(job):
             return None
 
         def expect_fired(before, exp, what):
+            if st.get("rc_event"):
+                return  # a callback closed the client during this event: what close() must fail is checked in the callback
             exp = list(exp) + st.pop("eb_fired", [])
             got = sorted(r.cid for r in fired_now(before))
             ctx.check(got == sorted(exp), "exactly-the-addressed-request-fires", "%s: fired %r, expected %r" % (what, got, sorted(exp)))
@@ -199,6 +203,7 @@ def _broker(job):
             if next_timer(clock) is not None:
                 acts.append(8)
             a = ctx.choose("ev", 9, enabled=sorted(set(acts)))
+            st["rc_event"] = False
             before = snapshot()
             try:
                 if a == 0:
@@ -207,8 +212,9 @@ def _broker(job):
                     if job["noreply"] and ctx.choose("expect", 2) == 1:
                         expect = False
                     r = Req(cid, expect)
-                    if job.get("reentrant") and expect:
-                        r.cb_action = ctx.choose("cb_action", 3)
+                    if job.get("reentrant") and (expect or job["noreply"]):
+                        # (for a request that expects no reply the "response" callback is the one fired when it is written)
+                        r.cb_action = ctx.choose("cb_action", 3 if expect else 2)
                     if job.get("eb_cancel"):
                         r.eb_cancel = ctx.choose("eb_cancel", 2)
                     reqs.append(r)
